@@ -1807,3 +1807,27 @@ UNITS["placement"]["items"].insert(2,
         r matches Ok(v) ==> forall|j: int| 0 <= j < v@.len() ==> drawn_from(candidates@, #[trigger] v@[j]), // @C17/sample/every_drawn_node_is_one_of_the_candidates
         r.is_ok() ==> k <= candidates@.len(), // @C17/sample/never_more_than_available
 """})
+
+UNITS["bucket"]["items"].append(
+    {"impl": "DhtCoreEngine", "fn": "store", "serves": ["C05"], "tags_by_owner": True,
+     "drop_macros": ["tracing::debug!"],
+     "block": {"name": "verif_store_sequential", "of": "DhtCoreEngine::store",
+               "sig": "fn verif_store_sequential(&mut self, data_store_g: &mut DataStore, load_balancer_g: &LoadBalancer, key: &DhtKey, value: Vec<u8>) -> Result<StoreReceipt>",
+               "why": "await erasure: the awaits are the call of the engine's own select_storage_peers (opaque: some nodes) and two tokio RwLock acquisitions (load balancer, data store); the guarded objects became parameters"},
+     "rewrite": [
+         (r"anyhow::anyhow!\((?:[^()]|\([^()]*\))*\)", "VerifError {}", "error value: the message text of anyhow!(..) is dropped"),
+         (r"self\.select_storage_peers\(key, K\)\.await", "self.select_storage_peers(key, K)", "await erased (call of the engine's own async helper)"),
+         (r"let load_balancer = self\.load_balancer\.read\(\)\.await;", "let load_balancer = load_balancer_g;", "lock acquisition replaced by the parameter that stands for the guarded load balancer"),
+         (r"select_least_loaded\(&target_nodes, K\)", "select_least_loaded(target_nodes.as_slice(), K)", "deref coercion &Vec<T> -> &[T] made explicit"),
+         (r"self\s*\.data_store\s*\.write\(\)\s*\.await", "data_store_g", "lock acquisition replaced by the parameter that stands for the guarded data store"),
+         (r"selected_nodes\.contains\(&self\.node_id\)", "verif_contains_id(&selected_nodes, &self.node_id)", "Vec::contains renamed to a shim fn (membership by ==)"),
+     ],
+     "spec": """
+    requires
+        old(data_store_g).counters_below_max(),
+    ensures
+        value@.len() > 512 ==> r.is_err() && final(data_store_g)@ == old(data_store_g)@, // @C05/store_path/the_engine_refuses_a_value_over_512_bytes_and_leaves_the_store_untouched
+        final(data_store_g)@ == old(data_store_g)@ || final(data_store_g)@ == old(data_store_g)@.insert(*key, value@), // @C05/store_path/a_store_writes_at_most_the_given_key_with_exactly_the_given_bytes
+        (r matches Ok(rc) && rc.stored_at@.contains(old(self).node_id)) ==> final(data_store_g)@ == old(data_store_g)@.insert(*key, value@), // @C05/store_path/a_receipt_that_lists_this_node_means_the_value_is_in_its_store
+        final(self).node_id == old(self).node_id,
+"""})
